@@ -341,7 +341,8 @@ def pi_stream(ck, rng, thorough, oracle):
             # every input is dimensionless: the basis is the inputs themselves
             try:
                 r0 = pi_theorem(quantities)
-                oracle(len(r0) == n, "pi-no-dimensions", "pi_theorem on all-dimensionless inputs does not return one group per input", {"quantities": {k: dict(v) for k, v in quantities.items()}})
+                v0 = [[F(r.get(f"q{q}", 0)).limit_denominator(10000) for q in range(n)] for r in r0]
+                oracle(len(r0) == n and rank(v0) == n, "pi-no-dimensions", "pi_theorem on all-dimensionless inputs does not return a basis (one independent group per input)", {"quantities": {k: dict(v) for k, v in quantities.items()}})
             except IndexError:
                 oracle(False, "pi-no-dimensions", "pi_theorem raises IndexError when every input is dimensionless", {"quantities": {k: dict(v) for k, v in quantities.items()}})
             continue
